@@ -161,11 +161,31 @@ def sym_sqrt(x):
 
 
 # ---- memoised uninterpreted functions (purity checks, DESIGN 2.3) ------------------------
+def _ackermann(fname, terms, outs):
+    """congruence by Ackermann reduction: results are fresh constants; for every earlier application of the same
+    function, equal arguments imply equal results (keeps the queries in pure arithmetic, which z3 decides far better
+    than arithmetic mixed with function symbols)"""
+    reg = ENG.records.setdefault('ackermann', {}).setdefault(fname, [])
+    for t0, o0 in reg:
+        if len(t0) != len(terms):
+            continue
+        prem = [a == b for a, b in zip(t0, terms) if not a.eq(b)]
+        concl = [a == b for a, b in zip(o0, outs)]
+        if not prem:
+            ENG.assumes.append(z3.And(*concl))
+        else:
+            ENG.assumes.append(z3.Implies(z3.And(*prem), z3.And(*concl)))
+    reg.append((list(terms), list(outs)))
+
+
 def uf1(name, x, positive_out=False, nonneg_out=False):
+    """scalar uninterpreted function: equal arguments give equal results (Ackermann congruence)"""
     key = (name, x.z.get_id())
     if key in ENG.uf_memo:
         return ENG.uf_memo[key][1]
     s = ENG.fresh_real(name)
+    a = z3.ToReal(x.z) if x.isint else x.z
+    _ackermann('uf1:' + name, [a], [s])
     if positive_out:
         ENG.assumes.append(s > 0)
     if nonneg_out:
@@ -173,6 +193,31 @@ def uf1(name, x, positive_out=False, nonneg_out=False):
     r = Sym(s)
     ENG.uf_memo[key] = (x, r)
     return r
+
+
+def _flatten_args(a, terms, tag):
+    """numeric leaves become function arguments, everything else becomes part of the function's name"""
+    if isinstance(a, Sym):
+        terms.append(z3.ToReal(a.z) if a.isint else a.z)
+    elif isinstance(a, _np.ndarray):
+        tag.append('a%s' % (a.shape,))
+        for x in a.flat:
+            _flatten_args(x, terms, tag)
+    elif isinstance(a, (list, tuple)):
+        tag.append('l%d' % len(a))
+        for x in a:
+            _flatten_args(x, terms, tag)
+    elif isinstance(a, (bool, _np.bool_, str)) or a is None:
+        tag.append(repr(a))
+    elif isinstance(a, (int, _np.integer)):
+        tag.append('i%d' % int(a))
+    elif isinstance(a, (float, _np.floating)):
+        terms.append(core.realval(float(a)))
+    elif isinstance(a, (complex, _np.complexfloating)):
+        terms.append(core.realval(float(a.real)))
+        terms.append(core.realval(float(a.imag)))
+    else:
+        raise Unsupported('uf argument %r' % type(a))
 
 
 def _term_key(a):
@@ -195,15 +240,22 @@ def _term_key(a):
 
 
 def uf_array(name, args, shape, keep=None):
-    """memoised uninterpreted array-valued function: same argument terms -> same fresh outputs"""
+    """array-valued uninterpreted function: fresh constants per application, with congruence against every earlier
+    application of the same function (equal arguments, equal results, even when syntactically different)"""
     from .shim import SymArray
     key = (name, _term_key(args))
     if key in ENG.uf_memo:
         return ENG.uf_memo[key][1]
+    terms, tag = [], []
+    _flatten_args(args, terms, tag)
     out = _np.empty(shape, dtype=object)
     base = ENG.fresh_name(name)
+    outs = []
     for idx in _np.ndindex(*shape):
-        out[idx] = Sym(z3.Real(base + '_' + '_'.join(map(str, idx))))
+        v = z3.Real(base + '_' + '_'.join(map(str, idx)))
+        out[idx] = Sym(v)
+        outs.append(v)
+    _ackermann('%s|%s|%s' % (name, '|'.join(tag), shape), terms, outs)
     out = out.view(SymArray)
     ENG.uf_memo[key] = (args if keep is None else keep, out)
     return out
